@@ -64,6 +64,7 @@ pub trait MutIt<'a>: Iterator<Item = (&'a mut Item, &'a mut Pr)> {
     /// offers `next_back`
     const DOUBLE_ENDED: bool;
     fn back(&mut self) -> Option<(&'a mut Item, &'a mut Pr)>;
+    fn nth_back_q(&mut self, j: usize) -> Option<(&'a mut Item, &'a mut Pr)>;
     /// `Some(len())` iff the type declares an exact size
     fn declared_len(&self) -> Option<usize>;
 }
@@ -71,6 +72,9 @@ pub trait MutIt<'a>: Iterator<Item = (&'a mut Item, &'a mut Pr)> {
 impl<'a, H: BuildHasher> MutIt<'a> for priority_queue::priority_queue::iterators::IterMut<'a, Item, Pr, H> {
     const DOUBLE_ENDED: bool = false;
     fn back(&mut self) -> Option<(&'a mut Item, &'a mut Pr)> {
+        unreachable!()
+    }
+    fn nth_back_q(&mut self, _j: usize) -> Option<(&'a mut Item, &'a mut Pr)> {
         unreachable!()
     }
     fn declared_len(&self) -> Option<usize> {
@@ -83,6 +87,9 @@ impl<'a, H: BuildHasher> MutIt<'a> for priority_queue::double_priority_queue::it
     fn back(&mut self) -> Option<(&'a mut Item, &'a mut Pr)> {
         self.next_back()
     }
+    fn nth_back_q(&mut self, j: usize) -> Option<(&'a mut Item, &'a mut Pr)> {
+        self.nth_back(j)
+    }
     fn declared_len(&self) -> Option<usize> {
         (&Probe(self)).declared_len()
     }
@@ -91,12 +98,16 @@ impl<'a, H: BuildHasher> MutIt<'a> for priority_queue::double_priority_queue::it
 /// What the harnesses need from a sorted consuming iterator of either kind.
 pub trait SortedIt: Iterator<Item = (Item, Pr)> {
     fn back(&mut self) -> Option<(Item, Pr)>;
+    fn nth_back_q(&mut self, j: usize) -> Option<(Item, Pr)>;
     /// `Some(len())` iff the type declares an exact size
     fn declared_len(&self) -> Option<usize>;
 }
 
 impl<H: BuildHasher> SortedIt for priority_queue::priority_queue::iterators::IntoSortedIter<Item, Pr, H> {
     fn back(&mut self) -> Option<(Item, Pr)> {
+        unreachable!()
+    }
+    fn nth_back_q(&mut self, _j: usize) -> Option<(Item, Pr)> {
         unreachable!()
     }
     fn declared_len(&self) -> Option<usize> {
@@ -107,6 +118,9 @@ impl<H: BuildHasher> SortedIt for priority_queue::priority_queue::iterators::Int
 impl<H: BuildHasher> SortedIt for priority_queue::double_priority_queue::iterators::IntoSortedIter<Item, Pr, H> {
     fn back(&mut self) -> Option<(Item, Pr)> {
         self.next_back()
+    }
+    fn nth_back_q(&mut self, j: usize) -> Option<(Item, Pr)> {
+        self.nth_back(j)
     }
     fn declared_len(&self) -> Option<usize> {
         (&Probe(self)).declared_len()
